@@ -282,7 +282,7 @@ func runFilterPushdownKept(c *Ctx, rule string) {
 func runSortFieldPairing(c *Ctx, ruleRev, ruleNulls string) {
 	p := c.P
 	c.Rule(ruleRev, "sort direction is read whole: every function of compiler/optimizer that reads Args[i].Order of a dag.Sort also reads that sort's Reverse flag (itself or through a callee it hands the sort to)")
-	c.Rule(ruleNulls, "a sort is replaced by a merge only after its null placement was consulted: every function of compiler/optimizer that builds a dag.Merge in a function that handles a *dag.Sort reads the sort's NullsFirst (itself or through a callee it hands the sort to)")
+	c.Rule(ruleNulls, "a sort is replaced by a merge only after its null placement was consulted: in every function of compiler/optimizer that builds a dag.Merge while handling a *dag.Sort, the block that builds the merge is reachable through only one edge of a dominating test whose condition derives from the sort's NullsFirst (a direct load, or a callee that receives the sort and reads it)")
 	// which Sort fields does fn read, directly or through callees that receive a *dag.Sort?
 	var readsOf func(fn *ssa.Function, depth int, seen map[*ssa.Function]bool) map[string]bool
 	readsOf = func(fn *ssa.Function, depth int, seen map[*ssa.Function]bool) map[string]bool {
@@ -397,8 +397,50 @@ func runSortFieldPairing(c *Ctx, ruleRev, ruleNulls string) {
 		if buildsMerge && direct["Sort.Args"] {
 			nNulls++
 			construct := fnName(fn) + " builds a dag.Merge from a dag.Sort"
-			if has(all, "Sort.NullsFirst") {
-				c.OK(ruleNulls, construct, mergePos, "NullsFirst is consulted")
+			// the construction of the merge must be control-dependent on that consultation: an If whose
+			// condition derives from NullsFirst (a direct load, or a call that receives the sort and
+			// reads NullsFirst) dominates the block that builds the merge
+			consulted := false
+			var mergeBlock *ssa.BasicBlock
+			for _, b := range fn.Blocks {
+				for _, in := range b.Instrs {
+					if al, ok := in.(*ssa.Alloc); ok {
+						if pt, ok := al.Type().Underlying().(*types.Pointer); ok && namedOf(pt.Elem()) == "compiler/ast/dag.Merge" {
+							mergeBlock = b
+						}
+					}
+				}
+			}
+			readsNullsFirst := func(v ssa.Value) bool {
+				switch x := v.(type) {
+				case *ssa.FieldAddr:
+					return namedOf(x.X.Type()) == "compiler/ast/dag.Sort" && fieldName(x.X.Type(), x.Field) == "NullsFirst"
+				case *ssa.Call:
+					callee := x.Common().StaticCallee()
+					if callee == nil || p.PkgOf(callee) != "compiler/optimizer" {
+						return false
+					}
+					for _, a := range x.Common().Args {
+						if namedOf(a.Type()) == "compiler/ast/dag.Sort" {
+							return has(readsOf(callee, 0, map[*ssa.Function]bool{}), "Sort.NullsFirst")
+						}
+					}
+				}
+				return false
+			}
+			for _, gb := range fn.Blocks {
+				if mergeBlock == nil || len(gb.Instrs) == 0 || gb == mergeBlock || !gb.Dominates(mergeBlock) {
+					continue
+				}
+				if iff, ok := gb.Instrs[len(gb.Instrs)-1].(*ssa.If); ok && dependsOn(iff.Cond, readsNullsFirst) {
+					// the merge must be reachable through one edge of this If only
+					if !(reachesBlock(gb.Succs[0], mergeBlock, gb) && reachesBlock(gb.Succs[1], mergeBlock, gb)) {
+						consulted = true
+					}
+				}
+			}
+			if has(all, "Sort.NullsFirst") && consulted {
+				c.OK(ruleNulls, construct, mergePos, "the merge is built only on one side of a test that consults NullsFirst")
 			} else {
 				c.Fail(ruleNulls, construct, mergePos, "a sort is split into per-leg sorts plus a merge without looking at its null placement: the merge orders nulls as the maximum value, the sort may not (`sort -nulls first`, `sort -r`), so with more than one leg the output is not sorted")
 			}
